@@ -8,6 +8,7 @@ import (
 	"math/big"
 	"sort"
 	"sync"
+	"sync/atomic"
 	"time"
 
 	"perun.network/go-perun/channel"
@@ -265,7 +266,12 @@ func (l *Ledger) record(c LedgerCall) {
 type Party struct {
 	L    *Ledger
 	Name string
+	// Dead is set when the client instance using this handle has crashed: its
+	// left-over goroutines can no longer reach the ledger.
+	Dead atomic.Bool
 }
+
+var errDead = errors.New("ledger: process has crashed")
 
 // Party returns the handle for an account name.
 func (l *Ledger) Party(name string) *Party { return &Party{L: l, Name: name} }
@@ -285,6 +291,9 @@ func errStr(err error) string {
 
 // Fund implements channel.Funder.
 func (p *Party) Fund(ctx context.Context, req channel.FundingReq) error {
+	if p.Dead.Load() {
+		return errDead
+	}
 	l := p.L
 	id := req.Params.ID()
 	name := l.S.ChanName(id)
@@ -398,6 +407,9 @@ func verifyAll(params *channel.Params, st *channel.State, sigs []wallet.Sig) err
 
 // Register implements channel.Registerer.
 func (p *Party) Register(ctx context.Context, req channel.AdjudicatorReq, subs []channel.SignedState) error {
+	if p.Dead.Load() {
+		return errDead
+	}
 	l := p.L
 	id := req.Params.ID()
 	name := l.S.ChanName(id)
@@ -538,6 +550,9 @@ func (p *Party) Progress(context.Context, channel.ProgressReq) error {
 
 // Withdraw implements channel.Withdrawer.
 func (p *Party) Withdraw(ctx context.Context, req channel.AdjudicatorReq, subStates channel.StateMap) error {
+	if p.Dead.Load() {
+		return errDead
+	}
 	l := p.L
 	id := req.Params.ID()
 	name := l.S.ChanName(id)
